@@ -158,11 +158,11 @@ func c09End(p *core.Prog, r *core.Report) {
 			// !item.tomb after delete
 			if u, isU := rv[1].(*ssa.UnOp); isU && u.Op.String() == "!" {
 				del := false
-				core.EachInstr(f, func(j ssa.Instruction) {
-					if c, isC := core.IsBuiltin(j, "delete"); isC && core.LoadedField(c.Call.Args[0]) == itemsF && before(j, ret) {
+				for _, j := range mapDeletes(p, f, itemsF, 2) {
+					if before(j, ret) {
 						del = true
 					}
-				})
+				}
 				ok = del
 			}
 		})
@@ -173,6 +173,18 @@ func c09End(p *core.Prog, r *core.Report) {
 // pathCounts computes, for each return of an acyclic function, the min and max number of
 // events on paths from `from` to it; prune vetoes CFG edges.
 func pathCounts(f *ssa.Function, from ssa.Instruction, isEvent core.InstrPred, prune func(a, b *ssa.BasicBlock) bool) map[*ssa.Return][2]int {
+	return pathCountsW(f, from, func(i ssa.Instruction) (int, int) {
+		if isEvent(i) {
+			return 1, 1
+		}
+		return 0, 0
+	}, prune)
+}
+
+// pathCountsW: for every return reachable from `from` (the function entry when
+// nil), the minimum and maximum sum of event weights over the acyclic paths to
+// it; weight(i) gives the (min, max) number of events instruction i stands for.
+func pathCountsW(f *ssa.Function, from ssa.Instruction, weight func(ssa.Instruction) (int, int), prune func(a, b *ssa.BasicBlock) bool) map[*ssa.Return][2]int {
 	type mm struct{ lo, hi int }
 	res := map[*ssa.Return][2]int{}
 	memo := map[*ssa.BasicBlock]map[*ssa.Return]mm{}
@@ -187,14 +199,14 @@ func pathCounts(f *ssa.Function, from ssa.Instruction, isEvent core.InstrPred, p
 		if depth > 400 {
 			return out
 		}
-		cnt := 0
+		cnt, cntHi := 0, 0
 		for k := start; k < len(b.Instrs); k++ {
 			i := b.Instrs[k]
-			if isEvent(i) {
-				cnt++
-			}
+			lo, hi := weight(i)
+			cnt += lo
+			cntHi += hi
 			if ret, ok := i.(*ssa.Return); ok {
-				out[ret] = mm{cnt, cnt}
+				out[ret] = mm{cnt, cntHi}
 			}
 		}
 		for _, s := range b.Succs {
@@ -205,7 +217,7 @@ func pathCounts(f *ssa.Function, from ssa.Instruction, isEvent core.InstrPred, p
 				continue // back edge: not expected here
 			}
 			for ret, v := range walk(s, 0, depth+1) {
-				nv := mm{v.lo + cnt, v.hi + cnt}
+				nv := mm{v.lo + cnt, v.hi + cntHi}
 				if old, ok := out[ret]; ok {
 					if old.lo < nv.lo {
 						nv.lo = old.lo
@@ -222,6 +234,12 @@ func pathCounts(f *ssa.Function, from ssa.Instruction, isEvent core.InstrPred, p
 		}
 		return out
 	}
+	if from == nil {
+		for ret, v := range walk(f.Blocks[0], 0, 0) {
+			res[ret] = [2]int{v.lo, v.hi}
+		}
+		return res
+	}
 	b := from.Block()
 	idx := 0
 	for k, i := range b.Instrs {
@@ -233,6 +251,65 @@ func pathCounts(f *ssa.Function, from ssa.Instruction, isEvent core.InstrPred, p
 		res[ret] = [2]int{v.lo, v.hi}
 	}
 	return res
+}
+
+// nilPrune builds an edge filter that drops the edges requiring v == nil.
+func nilPrune(v ssa.Value) func(a, b *ssa.BasicBlock) bool {
+	return func(a, b *ssa.BasicBlock) bool {
+		ifi, ok := a.Instrs[len(a.Instrs)-1].(*ssa.If)
+		if !ok || a.Succs[0] == a.Succs[1] {
+			return false
+		}
+		cmps, _ := core.ExpandCond(ifi.Cond, a.Succs[0] == b)
+		for _, c := range cmps {
+			if (c.X == v && core.IsNilConst(c.Y)) || (c.Y == v && core.IsNilConst(c.X)) {
+				if c.Op.String() == "==" {
+					return true
+				}
+			}
+		}
+		return false
+	}
+}
+
+// endWeight: the number of RelayCall.End events an instruction stands for: 1
+// for the call itself; for a call to a helper of the analysed packages that
+// receives the relay call `callV` as an argument, the (min, max) number of End
+// calls on the helper's paths (the relay call taken as non-nil there too).
+func endWeight(p *core.Prog, callV ssa.Value, depth int) func(ssa.Instruction) (int, int) {
+	return func(i ssa.Instruction) (int, int) {
+		if _, ok := isRelayCallMethod(i, "End"); ok {
+			return 1, 1
+		}
+		c, ok := i.(*ssa.Call)
+		if !ok || depth <= 0 {
+			return 0, 0
+		}
+		g := c.Call.StaticCallee()
+		if g == nil || !p.InAnalysed(g) || len(g.Blocks) == 0 {
+			return 0, 0
+		}
+		var prm ssa.Value
+		for k, a := range c.Call.Args {
+			if a == callV && k < len(g.Params) {
+				prm = g.Params[k]
+			}
+		}
+		if prm == nil {
+			return 0, 0
+		}
+		lo, hi, first := 0, 0, true
+		for _, v := range pathCountsW(g, nil, endWeight(p, prm, depth-1), nilPrune(prm)) {
+			if first || v[0] < lo {
+				lo = v[0]
+			}
+			if first || v[1] > hi {
+				hi = v[1]
+			}
+			first = false
+		}
+		return lo, hi
+	}
 }
 
 func c09Admission(p *core.Prog, r *core.Report) {
@@ -273,7 +350,8 @@ func c09Admission(p *core.Prog, r *core.Report) {
 		}
 		return false
 	}
-	counts := pathCounts(f, start, isEnd, prune)
+	_ = isEnd
+	counts := pathCountsW(f, start, endWeight(p, callV, 2), prune)
 	adds := core.CallsIn(f, "Relayer.addRelayItem")
 	var rets []*ssa.Return
 	for ret := range counts {
